@@ -60,7 +60,7 @@ Example C02_ex :
       match crun 100 h [open_stream w1; open_stream w2]
               [(0%nat, Write 5); (1%nat, Write 1000); (1%nat, Fin); (1%nat, Recv 1000); (0%nat, Write 1000);
                (1%nat, TryDecode); (0%nat, Fin); (0%nat, Recv 3); (0%nat, Recv 1000); (0%nat, TryDecode);
-               (0%nat, HandlerReturn); (1%nat, HandlerReturn); (0%nat, SFinish); (1%nat, SFinish);
+               (0%nat, Dispatch); (1%nat, Dispatch); (0%nat, HandlerReturn); (1%nat, HandlerReturn); (0%nat, SFinish); (1%nat, SFinish);
                (1%nat, CRead); (0%nat, CRead)] with
       | Some [s1; s2] =>
           cs s1 = CGot (Ok (mkResponse 1 Success [] [1; 2; 1; 2] []))
